@@ -177,7 +177,8 @@ def run(ast, ns, syntax='dtml', style=None):
         out_m, w_m, _ = harness.run_model(ast, ns)
     except model.Unspecified:
         return 'unspecified'
-    out_i, w_i, _ = harness.run_impl(src, syntax, ns)
+    # the compiled template has been rendered before with other values
+    out_i, w_i, _ = harness.run_impl_twice(src, syntax, ns)
     no_m, no_i = harness.norm_outcome(out_m), harness.norm_outcome(out_i)
     if no_m != no_i:
         kind = 'outcome'
